@@ -4462,20 +4462,26 @@ class ParseCtx:
                 i += 1
                 if contents[i] == "x" or contents[i] == "u":
                     if contents[i] == "u":
-                        raise NotImplementedError("don't support uescapes yet")
+                        raise IllegalParseTree("Unicode escapes are not supported in string " + escaped_string)
                     code = contents[i+1:i+3]
-                    result += chr(int(code, base=16))
+                    try:
+                        result += chr(int(code, base=16))
+                    except ValueError as e:
+                        raise IllegalParseTree("Invalid \\x escape in string " + escaped_string) from e
                     i += 3
                 else:
-                    result += {
-                        'n': '\n',
-                        'r': '\r',
-                        't': '\t',
-                        'b': '\b',
-                        '0': '\x00',
-                        '"': '"',
-                        '\\': '\\'
-                    }[contents[i]]
+                    try:
+                        result += {
+                            'n': '\n',
+                            'r': '\r',
+                            't': '\t',
+                            'b': '\b',
+                            '0': '\x00',
+                            '"': '"',
+                            '\\': '\\'
+                        }[contents[i]]
+                    except KeyError as e:
+                        raise IllegalParseTree("Unknown escape sequence \\" + contents[i] + " in string " + escaped_string) from e
                     i += 1
         return result
 
